@@ -78,7 +78,7 @@ func isKnown(sig string) bool { return !assumeFixed && evid.R.IsKnown(sig) }
 // Workload and result (JSON between parent and child).
 
 type Workload struct {
-	Kind   string `json:"kind"` // chain | pool | event | store | sync | tip
+	Kind   string `json:"kind"` // chain | pool | event | store | sync | tip | lin
 	Procs  int    `json:"procs"`
 	Seed   uint64 `json:"seed"`
 	Budget int    `json:"budget_s"` // wall-clock budget of the child (inconclusive when hit)
@@ -89,6 +89,7 @@ type Workload struct {
 	Store *StoreW `json:"store,omitempty"`
 	Sync  *SyncW  `json:"sync,omitempty"`
 	Tip   *TipW   `json:"tip,omitempty"`
+	Lin   *LinW   `json:"lin,omitempty"`
 }
 
 type Failure struct {
@@ -553,6 +554,8 @@ func childMain(path string) {
 		runSync(r)
 	case "tip":
 		runTip(r)
+	case "lin":
+		runLin(r)
 	default:
 		r.fail("harness", "unknown workload kind %q", w.Kind)
 	}
